@@ -821,7 +821,11 @@ class World:
         if kind == "alias":
             k, m = ms["of"].split(".")
             if ms.get("via") == "attr":
-                return getattr(self.classes[k], m)  # what ``name = Base.member`` puts into the namespace
+                v = getattr(self.classes[k], m)  # what ``name = Base.member`` evaluates to in the class body
+                if isinstance(self.classes[k].__dict__.get(m), staticmethod) or ms.get("static"):
+                    # a static method re-exported by attribute access is the bare function; keep it static
+                    return staticmethod(v)
+                return v
             return self.classes[k].__dict__[m]
         if kind == "prop":
 
